@@ -32,6 +32,11 @@ def interior_points(spec, rng, per_box=3):
                 if any(all(flo[d] <= int(spec.get("ratio", 2)) * c[d] <= fhi[d] for d in range(3)) for flo, fhi in fine):
                     continue
                 cand.append(c)
+            # the cell next to the box's upper corner (for boxes at the domain's high faces: the last cells before the faces)
+            top = [hi[d] - 1 for d in range(3)]
+            if all(hi[d] - lo[d] >= 2 for d in range(3)) and not any(
+                    all(flo[d] <= int(spec.get("ratio", 2)) * top[d] <= fhi[d] for d in range(3)) for flo, fhi in fine):
+                cand.insert(0, top)
             for c in cand[:per_box]:
                 pt = [spec["geo_low"][d] + (c[d] + 0.5) * spec["dx0"][d] / int(spec.get("ratio", 2)) ** lv for d in range(3)]
                 out.append((lv, bid, c, pt))
@@ -59,8 +64,10 @@ def run_spec(ctx, rep, spec, model, only=None):
     nf = len(spec["fields"])
     with quiet():
         # "maxmins_reader": the reader also holds the per-box minima / maxima of the level headers
-        pck = PlotfileCooker(path, maxmins=True) if spec.get("maxmins_reader") else PlotfileCooker(path)
-        if spec.get("maxmins_reader"): rep.count("reader-opened-with-maxmins")
+        kw_ = {}
+        if spec.get("maxmins_reader"): kw_["maxmins"] = True; rep.count("reader-opened-with-maxmins")
+        if spec.get("ghost_reader"): kw_["ghost"] = True; rep.count("reader-opened-with-ghost-map")
+        pck = PlotfileCooker(path, **kw_)
         if spec.get("compared_first"):
             # the same mesh with its boxes listed in another order, and a comparison of the two readers, before any query
             import copy
@@ -210,6 +217,7 @@ def run(ctx, rep, model=True):
             rep.count("fields-of-very-different-magnitudes")
         if i % 4 == 2: spec["path_form"] = "symlink"
         if i % 2 == 1: spec["maxmins_reader"] = True
+        if i % 3 == 0: spec["ghost_reader"] = True
         if i % 6 == 2 and len(spec["levels"]) == 3:
             # refinement ratio 4 (the middle level of a properly nested three-level mesh dropped)
             spec = plotgen.to_ratio4(spec); rep.count("refinement-ratio-4")
@@ -228,6 +236,18 @@ def run(ctx, rep, model=True):
         run_spec(ctx, rep, spec, model)
         if len(rep.violations) >= 10:
             return
+    rep.count("one-large-box-beside-64-small-ones")
+    run_spec(ctx, rep, big_and_small_spec(ctx.rng), model)
+
+
+def big_and_small_spec(rng):
+    """a level of 65 boxes of very different sizes: one of 16^3 cells beside sixty-four of 4^3 cells"""
+    small = [[[16 + 4 * i, 4 * j, 4 * k], [16 + 4 * i + 3, 4 * j + 3, 4 * k + 3]] for i in range(4) for j in range(4) for k in range(4)]
+    levels = [[[[0, 0, 0], [15, 15, 15]]] + small]
+    rng.shuffle(levels[0])
+    return {"ndims": 3, "fields": ["rho", "temp"], "time": 0.5, "geo_low": [-1.0, 0.5, 0.0], "dx0": [0.125, 0.25, 0.125], "grid0": [32, 16, 16],
+            "block": 4, "levels": levels, "layout": plotgen.random_layout(rng, levels, "scatter"),
+            "data": {"mode": "smallint", "seed": rng.randrange(1 << 30)}, "header_style": "amrex", "step": 1}
 
 
 def replay(ctx, rep, obj, model=True):
